@@ -51,7 +51,8 @@ def base_cases(seed, tier):
                             c['steps'][1]['tp'] = [new] + list(tp1[1:])
             except Exception:
                 pass
-        other = T.rand_tree(rng, 'q', 2, names=['a', 'b'], md_p=0.5)
+        # the untargeted tree holds siblings called 'a' and '_tmp_a' now and then: a failing save elsewhere must not touch either
+        other = T.rand_tree(rng, 'q', rng.choice([2, 3]), names=['a', '_tmp_a', 'b'], md_p=0.5, max_depth=1)
         st = dict(c['steps'][1])
         old_paths = ['/'.join(['r'] + p) for p in T.all_paths(ft)] + ['/'.join(['q'] + p) for p in T.all_paths(other)]
         st['probe'] = old_paths
